@@ -718,6 +718,25 @@ def mrun : MState → List MOp → Option MState
     | none => none
     | some (s', _) => mrun s' ops
 
+/-- the stores a request performs into the zones (program order): `pool_engage`
+writes one link per cell of the new zone, `pool_free` one link into the freed
+cell, `pool_alloc` none (it only rewrites `head->next`) -/
+def mstepEvs (s : MState) : MOp → List Ev
+  | .engage b sz e => engageEvs e (b + sz) (sz + 1) b
+  | .alloc => []
+  | .free c => (s.pool.release c).2
+
+/-- run a multi-zone history and collect all stores in program order -/
+def mrunE : MState → List MOp → Option (MState × List Ev)
+  | s, [] => some (s, [])
+  | s, op :: ops =>
+    match mstep s op with
+    | none => none
+    | some (s', _) =>
+      match mrunE s' ops with
+      | none => none
+      | some x => some (x.1, mstepEvs s op ++ x.2)
+
 /-- the same requests executed on the `next` pointers (`head` = address of
 `pool->free_blocks`); returns the new link memory and the pointer returned -/
 def mstepP (m : Links) (head : Nat) : MOp → Links × Option Nat
